@@ -274,7 +274,7 @@ theorem kk_foldl_addS2 (cs : List Str) (svc : SUnit) :
 
 theorem keys_fromVolume (E : Env) (path : Str) (u svc : SUnit) (n : Str) (h : fromVolume E path u = .ok (svc, n)) :
     KeepsOther (preService path u (s "Volume") (s "X-Volume")) svc := by
-  unfold fromVolume at h
+  unfold fromVolume volumeOpts at h
   simp only [bind_ok] at h
   obtain ⟨_, _, _, _, x, hx, svc1, hexec, hfin⟩ := h
   simp only [pure, Except.pure, Except.ok.injEq, Prod.mk.injEq] at hfin
